@@ -1,3 +1,4 @@
+import os
 from abc import ABC, abstractmethod
 from collections.abc import Iterable
 from typing import Generic, TypeVar
@@ -9,6 +10,11 @@ T = TypeVar("T")
 
 # Analysis result is a mapping from basic blocks to lattice values
 Result = dict[BB, T]
+
+# Verification seam (off by default): a factory that wraps the analysis worklists so
+# that a test harness can decide which block is visited next. Only consulted when the
+# environment variable `CQCL_GUPPYLANG_VERIF_SCHED` is set.
+_VERIF_SCHED = None
 
 
 class Analysis(Generic[T], ABC):
@@ -56,6 +62,8 @@ class ForwardAnalysis(Generic[T], Analysis[T], ABC):
         vals_before = {bb: self.initial() for bb in bbs}  # return value
         vals_after = {bb: self.apply_bb(vals_before[bb], bb) for bb in bbs}  # cache
         queue = set(bbs)
+        if _VERIF_SCHED is not None and os.environ.get("CQCL_GUPPYLANG_VERIF_SCHED"):
+            queue = _VERIF_SCHED(queue)
         while len(queue) > 0:
             bb = queue.pop()
             preds = (
@@ -85,6 +93,8 @@ class BackwardAnalysis(Generic[T], Analysis[T], ABC):
         """
         vals_before = {bb: self.initial() for bb in bbs}
         queue = set(bbs)
+        if _VERIF_SCHED is not None and os.environ.get("CQCL_GUPPYLANG_VERIF_SCHED"):
+            queue = _VERIF_SCHED(queue)
         while len(queue) > 0:
             bb = queue.pop()
             succs = (
